@@ -6,9 +6,11 @@ VARIABLES t, l, bad
 TInit == Init /\ t \in DOMAIN Cases /\ l = 0 /\ bad = {}
 TNext == /\ l < Len(Cases[t].steps) /\ l' = l + 1 /\ t' = t
          /\ LET s == Cases[t].steps[l + 1] IN
-            /\ Translate(s.tr, s.prog, s.text)
-            /\ bad' = bad \cup (IF ~Functional(s.tr, s.prog, s.text) THEN {<<l + 1, "Functional">>} ELSE {})
-                          \cup (IF ~ProgUnchanged(s.before, s.after) THEN {<<l + 1, "ProgramUnchanged">>} ELSE {})
-                          \cup (IF s.text = "" /\ s.tr # "B" THEN {<<l + 1, "NoException">>} ELSE {})
+            IF s.op = "mut"
+            THEN MutateInPlace(s.prog) /\ bad' = bad \cup (IF s.text = "" THEN {<<l + 1, "NoException">>} ELSE {})
+            ELSE /\ Translate(s.tr, s.prog, s.text)
+                 /\ bad' = bad \cup (IF ~Functional(s.tr, s.prog, s.text) THEN {<<l + 1, "Functional">>} ELSE {})
+                               \cup (IF ~ProgUnchanged(s.before, s.after) THEN {<<l + 1, "ProgramUnchanged">>} ELSE {})
+                               \cup (IF s.text = "" /\ s.tr # "B" THEN {<<l + 1, "NoException">>} ELSE {})
 AtEnd == (l = Len(Cases[t].steps) /\ bad # {}) => PrintT(ToJson([case |-> Cases[t].id, bad |-> bad]))
 =============================================================================
